@@ -14,9 +14,12 @@ Definition hot_views (f : sin -> view) (xs : list sin) : list view := map f (fil
 Definition cold_views (f : sin -> view) (xs : list sin) : list view := map f (filter is_cold xs).
 
 (* C01 on one reported record *)
+(* trigger of finding D44: a stream narrower than twice the activity window (tol*10) can be judged inactive in every interval *)
+Definition narrow_stream (ss : list view) : bool := existsb (fun s => qleb (hi s - lo s) (2 * act_window)) ss.
 Definition judge_c01_record (xs : list sin) (qh qc qr : Q) : list Z :=
   let hot := hot_views shifted_view xs in let cold := cold_views shifted_view xs in
-  if c01_b eps6 hot cold qh qc qr then [V_AGREE] else [V_PROP_FALSE; 1%Z].
+  if c01_b eps6 hot cold qh qc qr then [V_AGREE]
+  else if narrow_stream (hot ++ cold) then [V_PROP_FALSE; 144%Z] else [V_PROP_FALSE; 1%Z].
 
 (* stage judge restricted to what C01 states (targets), with model agreement on the whole table *)
 Definition judge_stage_c01 (hot cold extra : list view) (impl : ptab) : list Z :=
